@@ -207,7 +207,7 @@ Lemma resolve_external_lstat fs : forall hops p abs r,
 Proof.
   induction hops as [|h IH]; intros p abs r H; [discriminate|]. cbn [resolve_external] in H.
   destruct (lstat fs p) as [n|]; [|discriminate]. destruct n as [| | t |]; try discriminate.
-  set (abs0 := if is_rooted t then t else fjoin (join_abs (removelast p)) t) in *.
+  set (abs0 := if is_rooted t then clean t else fjoin (join_abs (removelast p)) t) in *.
   destruct (lstat fs (comps_of abs0)) as [n1|] eqn:E; [|discriminate].
   destruct n1 as [d pm mt | pm mt ks | t1 | k]; try (injection H as <- <-; split; [exact E|reflexivity]).
   now apply IH in H.
